@@ -45,3 +45,146 @@ package runner
 //@     invariant #C06.consecutive forall i int :: old(runN) <= i && i + 1 < runN ==> runJob[i+1] == runJob[i].Next
 //@     invariant #C06.all-pass forall i int :: old(runN) <= i && i < runN ==> passed(runErr[i], t)
 //@     invariant #C06.position (runN == old(runN) ==> nextJob == job) && (runN > old(runN) ==> nextJob == runJob[runN-1].Next)
+
+// ---- the pieces of (*TaskRunner).Run
+// runnerOK: the runner's containers exist and every registered context has an environment
+//@ pred runnerOK(r *TaskRunner) := r != nil && r.ctx != nil && r.compiler != nil && r.compiler.variables != nil && r.variables != nil && r.env != nil && (forall k string :: k in r.contexts ==> r.contexts[k] != nil && r.contexts[k].Env != nil && r.contexts[k].Variables != nil)
+//@ pred taskOK(t *task.Task) := t != nil && t.Env != nil && t.Variables != nil
+
+//@ func (*TaskRunner).contextForTask
+//@   requires runnerOK(r) && t != nil
+//@   modifies runN, runJob, runErr, ExecutionContext.startupError
+//@   ensures #log-prefix runN >= old(runN) && (forall i int :: i < old(runN) ==> runJob[i] == old(runJob[i]) && runErr[i] == old(runErr[i]))
+//@   ensures err == nil ==> c != nil && c.Env != nil && c.Variables != nil
+//@   ensures !exitOK(err)
+
+//@ func (*ExecutionContext).After
+//@   requires c != nil
+//@   modifies runN, runJob, runErr
+//@   ensures #log-prefix runN >= old(runN) && (forall i int :: i < old(runN) ==> runJob[i] == old(runJob[i]) && runErr[i] == old(runErr[i]))
+
+//@ func (*TaskCompiler).CompileCommand
+//@   requires tc != nil && executionCtx != nil && tc.variables != nil && vars != nil && compiledClosed()
+//@   modifies compiled
+//@   ensures result#1 == nil ==> result != nil && fresh(result) && result.Vars != nil && result.Next == nil && result.Timeout == timeout && result.Env == env && result.Stdin == stdin && result.Stdout == stdout && result.Stderr == stderr
+//@   ensures result#1 == nil ==> compiled[result]
+//@   ensures (forall k *executor.Job :: old(compiled[k]) ==> compiled[k]) && compiledClosed()
+//@   ensures !exitOK(result#1)
+//@   callsite RenderString
+//@     ghost compiled[j] = true
+
+// ghost trace of CompileCommand calls made by CompileTask: call i compiled command text ccCmd[i]
+// for variation index ccV[i] and command index ccC[i], yielding job ccJob[i]
+//@ ghost ccN int
+//@ ghost ccV map[int]int
+//@ ghost ccC map[int]int
+//@ ghost ccCmd map[int]string
+//@ ghost ccJob map[int]*executor.Job
+//@ pred nVariations(t *task.Task) := t.Variations == nil ? 1 : len(t.Variations)
+
+//@ func (*TaskCompiler).CompileTask
+//@   waive safe.assert "reflect Kind()==String is taken to imply dynamic type string: no named string types are stored in variable containers"
+//@   requires tc != nil && tc.variables != nil && t != nil && t.Variables != nil && env != nil && vars != nil && executionContext != nil && compiledClosed()
+//@   modifies compiled, executor.Job.Next, ccN, ccV, ccC, ccCmd, ccJob
+//@   ensures result#1 == nil ==> (result != nil ==> compiled[result]) && compiledClosed()
+//@   ensures !exitOK(result#1)
+//@   ensures #C06.empty result#1 == nil && (len(t.Commands) == 0 || (t.Variations != nil && len(t.Variations) == 0)) ==> ccN == old(ccN) && result == nil
+//@   ensures #C06.first result#1 == nil && ccN > old(ccN) ==> ccV[old(ccN)] == 0 && ccC[old(ccN)] == 0 && result == ccJob[old(ccN)]
+//@   ensures #C06.successor result#1 == nil ==> (forall i int :: old(ccN) <= i && i + 1 < ccN ==> ccJob[i].Next == ccJob[i+1] && (ccC[i] + 1 < len(t.Commands) ==> ccV[i+1] == ccV[i] && ccC[i+1] == ccC[i] + 1) && (ccC[i] + 1 >= len(t.Commands) ==> ccV[i+1] == ccV[i] + 1 && ccC[i+1] == 0))
+//@   ensures #C06.last result#1 == nil && ccN > old(ccN) ==> ccJob[ccN-1].Next == nil && ccC[ccN-1] == len(t.Commands) - 1 && ccV[ccN-1] == (t.Variations == nil ? 0 : len(t.Variations) - 1)
+//@   ensures #C06.commands result#1 == nil ==> (forall i int :: old(ccN) <= i && i < ccN ==> 0 <= ccC[i] && ccC[i] < len(t.Commands) && ccCmd[i] == t.Commands[ccC[i]])
+//@   loop 1 "range vars.Map()"
+//@     invariant #same tc == tc0 && t == t0 && executionContext == executionContext0 && env == env0 && vars != nil && tc != nil && tc.variables != nil && t != nil && env != nil && executionContext != nil && compiledClosed()
+//@     invariant #nothing-yet ccN == old(ccN) && job == nil && prev == nil
+//@   loop 2 "range t.GetVariations()"
+//@     invariant #same tc == tc0 && t == t0 && executionContext == executionContext0 && env == env0 && vars != nil && tc != nil && tc.variables != nil && t != nil && env != nil && executionContext != nil && compiledClosed()
+//@     invariant #count ccN >= old(ccN)
+//@     invariant #list (ccN == old(ccN) ==> job == nil && prev == nil) && (ccN > old(ccN) ==> job == ccJob[old(ccN)] && prev == ccJob[ccN-1] && prev != nil && prev.Next == nil)
+//@     invariant #jobs forall i int :: old(ccN) <= i && i < ccN ==> allocated(ccJob[i]) && compiled[ccJob[i]] && 0 <= ccC[i] && ccC[i] < len(t.Commands) && ccCmd[i] == t.Commands[ccC[i]] && 0 <= ccV[i] && ccV[i] <= rangeindex
+//@     invariant #links forall i int :: old(ccN) <= i && i + 1 < ccN ==> ccJob[i].Next == ccJob[i+1] && (ccC[i] + 1 < len(t.Commands) ==> ccV[i+1] == ccV[i] && ccC[i+1] == ccC[i] + 1) && (ccC[i] + 1 >= len(t.Commands) ==> ccV[i+1] == ccV[i] + 1 && ccC[i+1] == 0)
+//@     invariant #first ccN > old(ccN) ==> ccV[old(ccN)] == 0 && ccC[old(ccN)] == 0
+//@     invariant #progress ccN > old(ccN) ==> ccV[ccN-1] == rangeindex && ccC[ccN-1] == len(t.Commands) - 1
+//@     invariant #no-commands len(t.Commands) == 0 ==> ccN == old(ccN)
+//@     invariant #started ccN == old(ccN) ==> rangeindex == -1 || len(t.Commands) == 0
+//@   loop 3 "range t.Commands"
+//@     invariant #same tc == tc0 && t == t0 && executionContext == executionContext0 && env == env0 && vars != nil && tc != nil && tc.variables != nil && t != nil && env != nil && executionContext != nil && compiledClosed()
+//@     invariant #count ccN >= old(ccN) && rangeindex#1 >= 0
+//@     invariant #list (ccN == old(ccN) ==> job == nil && prev == nil) && (ccN > old(ccN) ==> job == ccJob[old(ccN)] && prev == ccJob[ccN-1] && prev != nil && prev.Next == nil)
+//@     invariant #jobs forall i int :: old(ccN) <= i && i < ccN ==> allocated(ccJob[i]) && compiled[ccJob[i]] && 0 <= ccC[i] && ccC[i] < len(t.Commands) && ccCmd[i] == t.Commands[ccC[i]] && 0 <= ccV[i] && ccV[i] <= rangeindex#1
+//@     invariant #links forall i int :: old(ccN) <= i && i + 1 < ccN ==> ccJob[i].Next == ccJob[i+1] && (ccC[i] + 1 < len(t.Commands) ==> ccV[i+1] == ccV[i] && ccC[i+1] == ccC[i] + 1) && (ccC[i] + 1 >= len(t.Commands) ==> ccV[i+1] == ccV[i] + 1 && ccC[i+1] == 0)
+//@     invariant #first ccN > old(ccN) ==> ccV[old(ccN)] == 0 && ccC[old(ccN)] == 0
+//@     invariant #progress (rangeindex >= 0 ==> ccN > old(ccN) && ccV[ccN-1] == rangeindex#1 && ccC[ccN-1] == rangeindex) && (rangeindex == -1 && ccN > old(ccN) ==> ccV[ccN-1] == rangeindex#1 - 1 && ccC[ccN-1] == len(t.Commands) - 1)
+//@     invariant #started rangeindex == -1 && ccN == old(ccN) ==> rangeindex#1 == 0 || len(t.Commands) == 0
+//@     invariant #no-commands len(t.Commands) == 0 ==> ccN == old(ccN)
+//@   callsite CompileCommand
+//@     ghost ccV[ccN] = rangeindex
+//@     ghost ccC[ccN] = rangeindex#2
+//@     ghost ccCmd[ccN] = command
+//@     ghost ccJob[ccN] = result
+//@     ghost ccN = ccN + 1
+
+//@ func (*TaskRunner).checkTaskCondition
+//@   requires runnerOK(r) && t != nil && executionContext != nil && compiledClosed()
+//@   modifies runN, runJob, runErr, compiled, executor.Job.Dir, executor.DefaultExecutor.*
+//@   ensures #log-prefix runN >= old(runN) && runN <= old(runN) + 1 && (forall i int :: i < old(runN) ==> runJob[i] == old(runJob[i]) && runErr[i] == old(runErr[i]))
+//@   ensures #C06.no-condition t.Condition == "" ==> result && result#1 == nil && runN == old(runN)
+//@   ensures compiledClosed()
+
+//@ func (*TaskRunner).before
+//@   requires runnerOK(r) && t != nil && execContext != nil && vars != nil && compiledClosed()
+//@   modifies runN, runJob, runErr, compiled, executor.Job.Dir, executor.DefaultExecutor.*
+//@   ensures #log-prefix runN >= old(runN) && (forall i int :: i < old(runN) ==> runJob[i] == old(runJob[i]) && runErr[i] == old(runErr[i]))
+//@   ensures #C06.before-all-ok result == nil ==> runN == old(runN) + len(t.Before) && (forall i int :: old(runN) <= i && i < runN ==> runErr[i] == nil)
+//@   ensures #C06.before-stops-at-first-failure result != nil ==> runN <= old(runN) + len(t.Before) && (forall i int :: old(runN) <= i && i + 1 < runN ==> runErr[i] == nil)
+//@   ensures compiledClosed()
+//@   loop 1 "range t.Before"
+//@     invariant #same r == r0 && t == t0 && execContext == execContext0 && runnerOK(r) && t != nil && execContext != nil && compiledClosed()
+//@     invariant #log-prefix forall i int :: i < old(runN) ==> runJob[i] == old(runJob[i]) && runErr[i] == old(runErr[i])
+//@     invariant #C06.count runN == old(runN) + rangeindex + 1
+//@     invariant #C06.all-ok forall i int :: old(runN) <= i && i < runN ==> runErr[i] == nil
+
+//@ func (*TaskRunner).after
+//@   requires runnerOK(r) && t != nil && execContext != nil && vars != nil && compiledClosed()
+//@   modifies runN, runJob, runErr, compiled, executor.Job.Dir, executor.DefaultExecutor.*
+//@   ensures #log-prefix runN >= old(runN) && runN <= old(runN) + len(t.After) && (forall i int :: i < old(runN) ==> runJob[i] == old(runJob[i]) && runErr[i] == old(runErr[i]))
+//@   ensures compiledClosed()
+//@   loop 1 "range t.After"
+//@     invariant #same r == r0 && t == t0 && execContext == execContext0 && runnerOK(r) && t != nil && execContext != nil && compiledClosed()
+//@     invariant #log-prefix forall i int :: i < old(runN) ==> runJob[i] == old(runJob[i]) && runErr[i] == old(runErr[i])
+//@     invariant #C06.count runN >= old(runN) && runN <= old(runN) + rangeindex + 1
+
+//@ func (*TaskRunner).storeTaskOutput
+//@   requires r != nil && t != nil && r.env != nil && r.variables != nil
+//@   nomod
+
+// call-site protocol of Run (C06): ghost results of the phases of one activation
+//@ ghost gCondMet bool
+//@ ghost gCondErr error
+//@ ghost gBeforeErr error
+//@ ghost gCompileErr error
+//@ ghost gStartErr error
+//@ ghost gExecErr error
+
+//@ func (*TaskRunner).Run
+//@   waive safe.close "C12 (cancellation safety) is not claimed: with two runs in flight a Cancel makes both close doneCh"
+//@   requires runnerOK(r) && taskOK(t) && compiledClosed()
+//@   modifies *
+//@   ensures #C07.success-records-zero result == nil && !t.Skipped && !old(t.Errored) ==> t.ExitCode == 0 && !t.Errored
+//@   ensures #C07.execute-failure-reported calls(execute) == 1 && gExecErr != nil ==> result != nil
+//@   ensures #C06.skipped-ran-nothing-else calls(checkTaskCondition) == 1 && !gCondMet && gCondErr == nil ==> result == nil && t.Skipped && calls(before) == 0 && calls(CompileTask) == 0 && calls(execute) == 0 && calls(after) == 0
+//@   callsite checkTaskCondition
+//@     ghost gCondMet = result
+//@     ghost gCondErr = result#1
+//@   callsite before
+//@     requires #C06.condition-first calls(checkTaskCondition) == 1 && gCondMet && gCondErr == nil && calls(before) == 0
+//@     ghost gBeforeErr = result
+//@   callsite CompileTask
+//@     requires #C06.before-first calls(before) == 1 && gBeforeErr == nil
+//@     ghost gCompileErr = result#1
+//@   callsite Start
+//@     ghost gStartErr = result
+//@   callsite execute
+//@     requires #C06.commands-after-before calls(before) == 1 && gBeforeErr == nil && calls(CompileTask) == 1 && gCompileErr == nil && calls(execute) == 0
+//@     ghost gExecErr = result
+//@   callsite after
+//@     requires #C06.after-only-after-success calls(execute) == 1 && gExecErr == nil && calls(after) == 0
